@@ -254,6 +254,10 @@ RefStep0(rs, e) ==
     [] e.ev = "Stall"    -> E({"C04"}, FALSE, rs, "C04/Stall/progress-on-spurious-poll")
     [] e.ev = "Spin"     -> rs      \* busy self-wake loop while blocked: reported in the evidence, not a clause of C01-C06
     [] e.ev = "Panic"    -> Rej("C19/Panic", "")
+    \* a single poll of the connection task did not return within the harness's wall-clock budget: nothing
+    \* after it can be observed, so every property's check reports it
+    [] e.ev = "Hang"     -> Rej("C04/Hang/poll-does-not-return", "")
+    [] e.ev = "Skipped"  -> rs      \* case not run: the harness gives up after three hung cases
     [] e.ev = "Done"     -> OnDone(rs, e)
     [] e.ev = "End"      -> OnEnd(rs, e)
     [] e.ev = "Mem"      -> OnMem(rs, e)
